@@ -827,3 +827,101 @@ def check_grid_search(model, grid, param_map, outputs, vectorize=True, permute=F
     if seen_values != want_rows:
         fails.append(dict(clause="grid_search: the parameter table holds exactly the rows of the grid", observed=sorted(seen_values)[:4], expected=sorted(want_rows)[:4]))
     return fails
+
+
+def check_dde_field(model, solver, seed=0, dt=0.01):
+    """C10-B1: the compiled function evaluates each delayed term as component x of hist(t - tau) (t in time units)."""
+    rng = np.random.default_rng(seed)
+    try:
+        comp = compile_model(model, vectorize=False, solver=solver, step_size=dt)
+    except Exception as exn:
+        return [dict(clause="get_run_func returns a function for a delayed model", observed=f"{type(exn).__name__}: {exn}")]
+    names = list(comp["names"])
+    if "hist" not in names:
+        return [dict(clause="delayed model: the compiled function takes a history argument", observed=names[:6])]
+    svars = mdl.state_vars(model)
+    try:
+        pos = positions(comp, model)
+    except Exception as exn:
+        return [dict(clause="layout: every declared state variable has a position", observed=f"{type(exn).__name__}: {exn}")]
+    n = len(np.asarray(comp["args"][1]).reshape(-1))
+    hi = names.index("hist")
+    coef = np.round(rng.uniform(0.5, 1.5, size=n), 3)
+
+    def H(tq):
+        return np.array([np.sin(coef[i] * tq + i) for i in range(n)], dtype=float)
+    fails = []
+    for k in (3, 40, 125):
+        t_units = k * dt if solver in ("euler", "heun") else 0.37 * k
+        t_arg = k if solver in ("euler", "heun") else t_units
+        yv = np.round(rng.uniform(-1, 1, size=n), 3)
+        args = list(comp["args"])
+        args[hi] = H
+        try:
+            got = np.array(comp["func"](t_arg, yv.copy(), *args[2:]), dtype=float, copy=True)
+        except Exception as exn:
+            return [dict(clause="delayed model: function callable with a user-supplied history", observed=f"{type(exn).__name__}: {exn}")]
+        want, _ = mdl.spec_rhs(model, {v: float(yv[pos[v]]) for v in svars}, t=t_units,
+                               hist=lambda tq, path: float(H(tq)[pos[path]]))
+        for v in svars:
+            if not close(got[pos[v]], want[v], 1e-7, 1e-9):
+                fails.append(dict(clause=f"delayed terms read component x of hist(t - tau) with t in time units ({solver})", var=v, t=t_units,
+                                  observed=float(got[pos[v]]), expected=float(want[v])))
+        if fails:
+            return fails
+    return fails
+
+
+def method_of_steps(model, T, h=1e-3):
+    """Reference DDE solution (RK4, linear interpolation of the computed trajectory, constant pre-history)."""
+    svars = mdl.state_vars(model)
+    y0 = mdl.initial_state(model)
+    ts = [0.0]
+    ys = [np.array([y0[v] for v in svars])]
+
+    def hist(tq, path):
+        j = svars.index(path)
+        if tq <= 0:
+            return ys[0][j]
+        if tq >= ts[-1]:
+            return ys[-1][j]
+        i = int(tq / h)
+        i = min(i, len(ts) - 2)
+        a = (tq - ts[i]) / h
+        return ys[i][j] + a * (ys[i + 1][j] - ys[i][j])
+
+    def f(t, y):
+        dy, _ = mdl.spec_rhs(model, dict(zip(svars, y)), t=t, hist=hist)
+        return np.array([dy[v] for v in svars])
+    n = int(round(T / h))
+    for i in range(n):
+        t, y = ts[-1], ys[-1]
+        k1 = f(t, y)
+        k2 = f(t + h / 2, y + h / 2 * k1)
+        k3 = f(t + h / 2, y + h / 2 * k2)
+        k4 = f(t + h, y + h * k3)
+        ys.append(y + h / 6 * (k1 + 2 * k2 + 2 * k3 + k4))
+        ts.append((i + 1) * h)
+    return np.array(ts), np.array(ys), svars
+
+
+def check_dde_run(model, solver, T=2.0, dt=1e-3, dts=0.05, precision="float64"):
+    """C10-B2: run converges to the solution of the DDE with constant pre-history."""
+    try:
+        kw = dict(rtol=1e-8, atol=1e-10) if solver == "scipy" else {}
+        df, outputs, _ = run_model(model, T, dt, dts, solver, False, **kw)
+    except Exception as exn:
+        return [dict(clause="run returns a result for a delayed model", observed=f"{type(exn).__name__}: {exn}")]
+    ts, ys, svars = method_of_steps(model, T, h=1e-3)
+    fails = []
+    tol = 2e-3 if solver == "scipy" else 2e-2
+    times = np.asarray(df.index, dtype=float)
+    for key, path in outputs.items():
+        got = np.asarray(df[key], dtype=float).reshape(len(df.index), -1)[:, 0]
+        want = np.interp(times, ts, ys[:, svars.index(path)])
+        scale = max(1.0, float(np.max(np.abs(want))))
+        if got.shape != want.shape or float(np.max(np.abs(got - want))) > tol * scale:
+            bad = int(np.argmax(np.abs(got - want)))
+            fails.append(dict(clause=f"run of a delayed model converges to the method-of-steps solution ({solver})", var=path,
+                              t=float(times[bad]), observed=float(got[bad]), expected=float(want[bad])))
+    return fails
